@@ -206,4 +206,14 @@ def gaussSolve (m k : Nat) (A B : Mat) : Option Mat :=
 def contractOk (m k : Nat) (A X B : Mat) : Bool :=
   (List.range m).all (fun i => (List.range k).all (fun j => decide (mmul m A X i j = B i j)))
 
+/-! ## decidable projections of a `calcAs` outcome (for concrete witnesses) -/
+def okDim : Except Err Res → Option Nat | .ok r => some r.dim | .error _ => none
+def okEntry : Except Err Res → Nat → Nat → Option Rat | .ok r, i, j => some (r.As i j) | .error _, _, _ => none
+def okNames : Except Err Res → Option (List Nat) | .ok r => some r.names | .error _ => none
+def errOf : Except Err Res → Option Err | .ok _ => none | .error e => some e
+
+/-- a second, trivially correct instance of the `solve` parameter: one algebraic variable only -/
+def solve1 (m _k : Nat) (A B : Mat) : Option Mat :=
+  if m = 1 ∧ A 0 0 ≠ 0 then some (fun _ j => B 0 j / A 0 0) else none
+
 end Andes.Eig
